@@ -38,14 +38,6 @@ Definition parse_op (x : sexp) : op * list outcome :=
    else if head_is x "clunk" then OpClunk a
    else OpRemove a, sc).
 
-(* ---- identity of a state, for de-duplication during the exploration ---- *)
-Definition SEP : N := 4294967296.
-Definition key_of (s : state) : list N :=
-  nextp s :: flat_map (fun fp => fst fp :: snd fp :: nil) (map_to_list (refs s)) ++
-  SEP :: flat_map (fun pv => fst pv :: enc_sfid (snd pv)) (map_to_list (heap s)) ++
-  SEP :: flat_map (fun pi => fst pi :: N.of_nat (snd pi) :: nil) (map_to_list (owner s)) ++
-  flat_map (fun th => SEP :: (if t_incall th then 1 else 0) :: t_log th) (threads s).
-
 Definition KS : Type := list N * state.
 Definition add_state (ks : list KS) (s : state) : list KS :=
   let k := key_of s in
